@@ -190,6 +190,9 @@ def check(ck):
                         ok5 = True
                     elif pol:
                         why = "the Content-Length test has the default `%s`, which is true when the header is absent" % dump(dflt)
+            ck.require(not c.args and not c.keywords, "C19.5", "%s: `%s` drains the whole body" % (q.fn(fs), dump(c)), "read() without a size",
+                       "`%s` reads only a part of the error body: what is left stays on the kept-alive connection and the next call on "
+                       "this proxy fails (ResponseNotReady) or reads the remainder as its own reply" % dump(c), q.loc(fs, n))
             ck.require(ok5, "C19.5", "%s: `%s` on the error path" % (q.fn(fs), dump(c)), "only when a Content-Length is declared",
                        "a non-200 reply is drained with `%s` although %s: for a reply without Content-Length on a connection the peer keeps "
                        "open the call blocks until the end of the stream - it neither returns nor raises TransportError" % (dump(c), why), q.loc(fs, n))
